@@ -23,6 +23,8 @@ def run(ctx):
         if "compound_policy" in p.meta.get("features", []):
             rolling.rule_policy_order(ctx, p, cfg, "R4")
         rolling.rule_reopen(ctx, p, cfg, "R5")
+        from rules import c08
+        c08.rule_reopen_keeps_data(ctx, p, cfg, "R5b")   # a reopen after a roll that failed must not cut the records still at the active path (C08.E4 re-evaluated)
         rolling.rule_writer_handle(ctx, p, cfg, "R7")
         if "config_parsing" in p.meta.get("features", []):
             from rules import c14
